@@ -237,6 +237,7 @@ def tasks(tier, flavours):
         t = dict(module="C07", family="serial", flavour=fl, params=dict(ops=ops, warm=warm, min_len=min_len), witness_every=8)
         if budget:
             t["time_budget"] = budget
+            t["max_paths"] = 120000        # cold writer pairs: 17 000 - 40 000 schedules each
         out.append(t)
     for fl in flavours:
         if tier == "quick":
@@ -260,4 +261,5 @@ def tasks(tier, flavours):
             for ops in TRIPLES_WARM:
                 add(fl, ops, True, 4 * 3600, 1)
     # longest first, so that the pool is kept busy
+    out.sort(key=lambda t: (0 if (not t["params"]["warm"] and all(o[0].startswith("write") for o in t["params"]["ops"])) else 1))
     return out
